@@ -10,6 +10,7 @@ import (
 	"fmt"
 	"net"
 	"sync"
+	"sync/atomic"
 	"testing"
 	"time"
 
@@ -31,6 +32,11 @@ type C19Plan struct {
 	Action    string `json:"action"`  // stop close reset close-stop (stop StopDelayMs after closing)
 	StopDelay int    `json:"stop_delay_ms,omitempty"`
 	TxTraffic bool   `json:"tx_traffic"` // peer streams inv/tx once in sync
+	// slow storage / output fetcher: the SlowK-th operation of kind SlowOp (write read fetch) after
+	// the trigger takes SlowMs longer, so that it is in flight while the node shuts down or reconnects
+	SlowOp string `json:"slow_op,omitempty"`
+	SlowK  int    `json:"slow_k,omitempty"`
+	SlowMs int    `json:"slow_ms,omitempty"`
 }
 
 type livePeer struct {
@@ -280,14 +286,49 @@ func c19Run(plan *C19Plan) (*nodeViolation, map[string]bool) {
 	cfg.StartHash = tree.ByName[verifkit.ChainName("a", start)].Hash
 	store := verifkit.NewMemStore(true)
 	ctx := quietCtx()
-	node := NewNode(cfg, store, fetch, fetch)
+	var slowMu sync.Mutex
+	var slowHit int32
+	defer func() {
+		if atomic.LoadInt32(&slowHit) == 1 {
+			flags["slow-op-in-flight"] = true
+		}
+	}()
+	slowArmed, slowCount := false, 0
+	slowHook := func(_ context.Context, op, key string) {
+		if plan.SlowOp == "" || op != plan.SlowOp {
+			return
+		}
+		slowMu.Lock()
+		hit := false
+		if slowArmed {
+			if slowCount == plan.SlowK {
+				hit = true
+				slowArmed = false
+			}
+			slowCount++
+		}
+		slowMu.Unlock()
+		if hit {
+			atomic.StoreInt32(&slowHit, 1)
+			time.Sleep(time.Duration(plan.SlowMs) * time.Millisecond)
+		}
+	}
+	store.SetGate(slowHook)
+	node := NewNode(cfg, store, fetch, &gatedFetcher{fetch, slowHook})
 	h := &liveHandler{}
 	node.RegisterHandler(h)
 	_ = node.SubscribePushDatas(ctx, subUniverse)
 
 	fired := make(chan struct{})
 	var once sync.Once
-	fire := func() { once.Do(func() { close(fired) }) }
+	fire := func() {
+		once.Do(func() {
+			slowMu.Lock()
+			slowArmed = true
+			slowMu.Unlock()
+			close(fired)
+		})
+	}
 	switch plan.Trigger {
 	case "connecting":
 		// nobody is listening at first: the node is in its connect/retry loop
@@ -507,10 +548,15 @@ func genC19(t *rapid.T) *C19Plan {
 		p.Start = rapid.IntRange(1, 3).Draw(t, "deepstart")
 		p.K = rapid.IntRange(0, 4).Draw(t, "deepk")
 	}
+	if rapid.IntRange(0, 2).Draw(t, "slow") == 0 {
+		p.SlowOp = rapid.SampledFrom([]string{"write", "write", "read", "fetch", "fetch"}).Draw(t, "slowop")
+		p.SlowK = rapid.IntRange(0, 3).Draw(t, "slowk")
+		p.SlowMs = rapid.SampledFrom([]int{60, 150, 400}).Draw(t, "slowms")
+	}
 	return p
 }
 
-const c19Rule = "live mode: the real Node.Run against a reactive scripted peer on loopback TCP (serves headers/blocks from a generated chain with transactions, pings every 40 ms, optional inv/tx stream once in sync); at a logical trigger (while connecting, mid-handshake, k-th header request, k-th block served, inside the k-th handler callback, some ms after in-sync) Stop is requested or the connection is closed/reset; oracle: Stop and Run return (30 s), no callback starts after Stop returned, a fresh node reloads exactly the chain / unconfirmed set / peers, after a lost connection the node reconnects with its stored tip, resumes to the peer's tip and never re-announces a height; non-trivial = the trigger lies strictly inside the protocol exchange (not trigger-not-reached); distinct by plan hash; schedules are sampled by the Go scheduler, not enumerated"
+const c19Rule = "live mode: the real Node.Run against a reactive scripted peer on loopback TCP (serves headers/blocks from a generated chain with transactions, pings every 40 ms, optional inv/tx stream once in sync); at a logical trigger (while connecting, mid-handshake, k-th header request, k-th block served, inside the k-th handler callback, some ms after in-sync) Stop is requested or the connection is closed/reset, in a third of the plans with one storage write / read / output fetch after the trigger taking 60-400 ms longer so that it is in flight during the shutdown or reconnect; oracle: Stop and Run return (30 s), no callback starts after Stop returned, a fresh node reloads exactly the chain / unconfirmed set / peers, after a lost connection the node reconnects with its stored tip, resumes to the peer's tip and never re-announces a height; non-trivial = the trigger lies strictly inside the protocol exchange (not trigger-not-reached); distinct by plan hash; schedules are sampled by the Go scheduler, not enumerated"
 
 func TestC19Live(t *testing.T) {
 	rep := verifkit.NewReport("C19", "TestC19Live", c19Rule)
